@@ -376,7 +376,7 @@ def trigger(
             except Exception as exc:
                 LOGGER.error(
                     f"Exception raised in user's 'evt.{event.name}' "
-                    f"event handler '{func.__name__}'"
+                    f"event handler '{getattr(func, '__name__', repr(func))}'"
                 )
                 LOGGER.exception(exc)
     except Exception:
